@@ -316,6 +316,13 @@ X_Project(e) ==
 \* r = <<result of the call run alone, result of the same call run concurrently>> (sorted lists)
 X_Conc(e) == Ok(e) /\ e.r[1] = e.r[2]
 
+\* ---- laws between real calls (value ranges beyond TLC's integers) ---------------
+\* r = <<left-hand side, right-hand side>>, both computed by the real library and
+\* recorded as strings; e.a.law names the law (see harness/fam_laws.go):
+\*   ZoomOutCompose, LookupThenZoomOut, HorizontalMinMaxCompose, InOutMergeIdentity (C03 / C09),
+\*   ShiftComposeLarge (C07), AltitudeKeySubVoxelEnds, KeyToZSubKeyEnds (C12)
+X_Law(e) == Ok(e) /\ e.r[1] = e.r[2] /\ e.r[1] # <<>>
+
 \* ---- dispatch -------------------------------------------------------------
 Explains(e) ==
   /\ e.bad = ""
@@ -371,6 +378,7 @@ Explains(e) ==
       [] e.op = "Quat"                 -> X_Quat(e)
       [] e.op = "Project"              -> X_Project(e)
       [] e.op = "Conc"                 -> X_Conc(e)
+      [] e.op = "Law"                  -> X_Law(e)
       [] OTHER -> FALSE
 
 \* what the specification expected (diagnostics for a rejected line)
@@ -432,6 +440,7 @@ Expected(e) ==
     [] e.op = "Project"              -> "Mercator within 1e-6 m, round trip within 2e-10 deg, altitude and list structure kept; unknown code = error"
     [] e.op = "Conc"                 -> "the result of the call executed alone"
     [] e.op \in MachineOps          -> "next working set (see MachineNext); previous state is the previous line's ws"
+    [] e.op = "Law"                  -> "both sides of the law must be equal"
     [] OTHER -> "no-spec-operator"
 
 \* ---- recorded deviations (known findings) -----------------------------------
